@@ -15,6 +15,11 @@ fn addrs() -> Vec<String> {
         "cosmwasm1fsgzj6t7udv8zhf6zj32mkqhcjcpv52yph5qsdcl0qt94jgdckqs2g053y".to_string(),
         "q\"uo\\te/ß€ \u{1F600}".to_string(),
         "new\nline\ttab".to_string(),
+        // case must be preserved: addresses are opaque strings to the handle
+        "Owner".to_string(),
+        "COSMWASM1FSGZJ6T7UDV8ZHF6ZJ32MKQHCJCPV52YPH5QSDCL0QT94JGDCKQS2G053Y".to_string(),
+        "mIxEd \u{c4}\u{df}\u{3a3}".to_string(),
+        " lead and trail ".to_string(),
         "x".repeat(4096),
     ]
 }
